@@ -1,6 +1,6 @@
 From AB Require Import Desc Generated GeneratedWf.
 From AB Require Import Tree TreeDefs TreeProofs TreeProofs2 TreeProofs3 TreeProofs4 TreeWF TreeWFProofs TreeRun TreeFacts.
-From AB Require Import Construct ConstructProofs ConstructWF TreeEdit TreeEditProofs TreeEditFacts.
+From AB Require Import Construct ConstructProofs ConstructWF TreeEdit TreeEditProofs TreeEditProofs2 TreeEditFacts.
 From Coq Require Import ZArith List Bool.
 Import ListNotations.
 
@@ -113,18 +113,15 @@ Proof. exact hwf_b_sound. Qed.
 Theorem C05_hwf_wf : forall cs n, HWF cs n -> WF cs n.
 Proof. exact HWF_WF. Qed.
 
-(* Context lemma. `plug root p new` replaces the sub-tree `old` selected by p and rewrites the token
-   list of every ancestor (pre ++ toks old ++ post |-> pre ++ toks new ++ post). If new is itself HWF,
-   ALREADY LIVES IN THE ROOT'S STORE (this is the hypothesis a forgotten reattach violates, see
+(* Context lemma. `plug root p new` replaces the sub-tree `old` selected by the path p (steps through
+   required / present optional fields and into item i of repeated fields) and rewrites the token list of
+   every ancestor, Repeated included (pre ++ toks old ++ post |-> pre ++ toks new ++ post). If new is
+   itself HWF, ALREADY LIVES IN THE ROOT'S STORE (the hypothesis a forgotten reattach violates, see
    C05_replace_without_reattach_not_wf), is not a File, and its tokens are new objects, the result is
-   HWF again; the root's token list changes exactly at old's infix; no other leaf changes.
-   _partial: proved for paths through required / present optional fields (SField steps). A step into
-   item i of a repeated field (SItem) is not assembled: the first/last-token lemma for a Repeated
-   whose item changes is proved (TreeEditProofs.rep_ends), the induction step through SRep is not.
-   Also not done: insert_item / remove_item / set_opt, reattach-then-plug, pop. *)
-Theorem C05_replace_subtree_wf_partial : forall cs, classes_ok cs ->
+   HWF again; the root's token list changes exactly at old's infix; no other leaf changes. *)
+Theorem C05_replace_subtree_wf : forall cs, classes_ok cs ->
   forall p root new root' old rsid,
-  Forall field_step p -> HWF cs root -> select root p = Some old -> plug root p new = Some root' ->
+  HWF cs root -> select root p = Some old -> plug root p new = Some root' ->
   HWF cs new -> exempt (UNode new) = false ->
   (forall c s T k d, new = Tree c s T k d -> s = rsid) -> (p <> [] -> root_sid root = rsid) ->
   (forall t t', In t (node_toks new) -> In t' (node_toks root) -> k_id t <> k_id t') ->
@@ -132,11 +129,7 @@ Theorem C05_replace_subtree_wf_partial : forall cs, classes_ok cs ->
   /\ (exists pre post, node_toks root = pre ++ node_toks old ++ post
                        /\ node_toks root' = pre ++ node_toks new ++ post)
   /\ (forall t, In t (leaves root') -> In t (leaves root) \/ In t (node_toks new)).
-Proof.
-  intros cs Hok p root new root' old rsid H1 H2 H3 H4 H5 H6 H7 H8 H9.
-  destruct (plug_fields cs Hok p root new root' old rsid H1 H2 H3 H4 H5 H6 H7 H8 H9) as [A B _ D _].
-  split; [exact A|]. split; [exact (HWF_WF cs root' A)|]. split; [exact B|exact D].
-Qed.
+Proof. exact replace_subtree. Qed.
 (* without the re-attachment the result is not WF: any tree containing a model of another store *)
 Theorem C05_foreign_store_not_wf : forall cs n s, In s (sids n) -> s <> root_sid n -> ~ WF cs n.
 Proof. exact foreign_sid_not_WF. Qed.
@@ -156,7 +149,11 @@ Example C05_replace_hyps :
      | None => False end.
 Proof. exact ex_edit_hyps. Qed.
 
-(* histories: any sequence of such replacements keeps the invariant, hence WF *)
-Theorem C05_history_partial : forall cs, classes_ok cs ->
-  forall a b, HWF cs a -> edits cs a b -> HWF cs b /\ WF cs b.
-Proof. exact history_HWF. Qed.
+Example C05_replace_hyps_deep :
+  hwf_b all_classes ex_open_num = true /\ select ex_open_num ex_deep_path = Some ex_old
+  /\ fresh_b ex_new_attached ex_open_num = true /\ root_sid ex_new_attached = root_sid ex_open_num
+  /\ match plug ex_open_num ex_deep_path ex_new_attached with
+     | Some r => hwf_b all_classes r = true /\ conforms all_classes r = true
+                 /\ text_of (node_toks r) = text_of (node_toks ex_open_num)
+     | None => False end.
+Proof. exact ex_edit_hyps_deep. Qed.
